@@ -471,7 +471,7 @@ func (x *Exec) applyContract(p *Path, site ssa.Instruction, fc *FuncContract, ca
 			p.assume(s)
 		}
 	}
-	if fc.MayPanic && x.npaths < x.maxPaths {
+	if (fc.MayPanic || x.implicitMayPanic(fc)) && x.npaths < x.maxPaths {
 		x.npaths++
 		q := p.clone(x.npaths)
 		doPost(q, fc.EnsPanic, nil)
@@ -1724,4 +1724,111 @@ func frameGoalAt(srt, cur, was, allowed string, defs []string, obj string) strin
 		anyWritten = append(anyWritten, eq(w, obj))
 	}
 	return or(append(anyWritten, eq(sel(cur, obj), sel(was, obj)))...)
+}
+
+// implicitMayPanic: an oxy function under contract that is neither declared `maypanic` nor `nopanic` is treated as
+// possibly panicking at its call sites when its body (or a body inlined into it, or a contracted callee, transitively)
+// contains a panic statement or a call that may panic: arbitrary code, or an interface / function-type / extern contract
+// declared `maypanic`. The callee's ensures_panic clauses describe the state on that exit.
+func (x *Exec) implicitMayPanic(fc *FuncContract) bool {
+	if fc == nil || fc.Kind != "func" || fc.NoPanic || fc.Trusted {
+		return false
+	}
+	fn := x.e.funcs[fc.Pkg+"."+fc.Name]
+	if fn == nil {
+		return false
+	}
+	if x.e.mayPanicMemo == nil {
+		x.e.mayPanicMemo = map[*ssa.Function]int{}
+	}
+	return x.fnMayPanic(fn, 0)
+}
+
+func (x *Exec) fnMayPanic(fn *ssa.Function, depth int) bool {
+	memo := x.e.mayPanicMemo
+	if v, ok := memo[fn]; ok {
+		return v == 1 // 2 = in progress (cycle): no
+	}
+	if depth > 8 || len(fn.Blocks) == 0 {
+		return false
+	}
+	memo[fn] = 2
+	res := false
+	callMay := func(cc *ssa.CallCommon) bool {
+		if _, ok := cc.Value.(*ssa.Builtin); ok {
+			return false
+		}
+		callee := cc.StaticCallee()
+		if callee == nil {
+			if cc.IsInvoke() {
+				if x.isNoopInvoke(cc) {
+					return false
+				}
+				if ic := x.ifaceContract(cc); ic != nil {
+					return ic.MayPanic
+				}
+				return true
+			}
+			if ft := x.functypeContract(cc); ft != nil {
+				return ft.MayPanic
+			}
+			if mc, ok := cc.Value.(*ssa.MakeClosure); ok {
+				if f2, ok := mc.Fn.(*ssa.Function); ok {
+					return x.fnMayPanic(f2, depth+1)
+				}
+			}
+			return true
+		}
+		name := callee.String()
+		if ec := x.e.cs.Externs[name]; ec != nil {
+			return ec.MayPanic
+		}
+		if lookupModel(name) != nil {
+			return false
+		}
+		if c2 := x.e.contractOf(callee); c2 != nil {
+			if c2.MayPanic {
+				return true
+			}
+			if c2.NoPanic || c2.Trusted {
+				return false
+			}
+			return x.fnMayPanic(callee, depth+1)
+		}
+		if x.inlinable(callee) {
+			return x.fnMayPanic(callee, depth+1)
+		}
+		if x.isPureExternal(callee) {
+			return false
+		}
+		return true
+	}
+	for _, b := range fn.Blocks {
+		for _, in := range b.Instrs {
+			switch in := in.(type) {
+			case *ssa.Panic:
+				res = true
+			case *ssa.Call:
+				if callMay(&in.Call) {
+					res = true
+				}
+			case *ssa.Defer:
+				if callMay(&in.Call) {
+					res = true
+				}
+			}
+			if res {
+				break
+			}
+		}
+		if res {
+			break
+		}
+	}
+	if res {
+		memo[fn] = 1
+	} else {
+		memo[fn] = 0
+	}
+	return res
 }
